@@ -177,7 +177,8 @@ def run(ctx):
                 "verifies each chain independently; request: inner requests (origin-form/absolute-form x X-Forwarded-Proto values) towards origins "
                 "with valid/expired/wrong-name/untrusted certificates that also listen for plaintext on the same port, with and without --insecure, "
                 "with and without Connection: Upgrade; two proxies configured with different CA files in one process (the second built after "
-                "the first) against origins of either CA. "
+                "the first) against origins of either CA; a proxy that first tunnels a CONNECT through an HTTPS upstream proxy and then "
+                "forwards intercepted requests to an origin whose certificate names that upstream proxy. "
                 "non-trivial = split inputs net.SplitHostPort accepts + every cache/handshake/request case",
         "traces_validated_against_impl": evals,
         "model_mismatches": len(model_bad),
